@@ -91,7 +91,7 @@ func (p Package) Lookup(name string) Declaration {
 func (p Package) LookupFunc(f LookupFunc) error {
 	var err error
 	for n, d := range p.Declarations {
-		if err := f(n, d); err != nil {
+		if err = f(n, d); err != nil {
 			break
 		}
 	}
